@@ -19,7 +19,7 @@ RULE = (
     "or a percent-encoded parameter byte, or >= 2 headers. Distinct by content."
 )
 ASSUMPTIONS = [
-    "header keys contain no ': ' and no CR/LF; header values contain no CR/LF; methods are not of the form HTTP/...",
+    "header keys contain no ': ' and no CR/LF; header values contain no CR/LF; methods do not start with HTTP/ (that prefix marks a status line)",
     "parameter keys are unique and values non-empty (blank values are dropped by design)",
 ]
 
@@ -50,8 +50,9 @@ path = st.lists(st.text(alphabet=PATH_CHARS, max_size=8), min_size=1, max_size=4
 pkey = st.one_of(st.text(alphabet=TOKEN, min_size=1, max_size=8).map(lambda s: s.encode()), S.binary(0, 8))
 pval = st.one_of(st.text(alphabet=TOKEN + "+/= ", min_size=1, max_size=24).map(lambda s: s.encode()), S.binary(1, 24))
 params = st.lists(st.tuples(pkey, pval), max_size=5, unique_by=lambda t: t[0])
-method = st.one_of(st.sampled_from([b"GET", b"POST", b"PUT", b"DELETE", b"OPTIONS", b"get", b"X-CUSTOM"]), st.text(alphabet=TOKEN, min_size=1, max_size=8).map(lambda s: s.encode()), wide_token).filter(
-    lambda m: not m.upper().startswith(b"HTTP")
+# (only a first line starting with "HTTP/" is a status line: methods that merely start with the letters "http" are methods)
+method = st.one_of(st.sampled_from([b"GET", b"POST", b"PUT", b"DELETE", b"OPTIONS", b"get", b"X-CUSTOM", b"HTTP", b"HTTPX", b"http-get", b"HttpPost", b"HTT", b"HTTP1.1"]), st.text(alphabet=TOKEN, min_size=1, max_size=8).map(lambda s: s.encode()), wide_token).filter(
+    lambda m: not m.upper().startswith(b"HTTP/")
 )
 
 
@@ -248,7 +249,7 @@ def fuzz_http(data: bytes):
         hdrs.append((k, v))
     if mode == 1:
         method = tok(r.blob(5))
-        if method.upper().startswith(b"HTTP"):
+        if method.upper().startswith(b"HTTP/"):
             method = b"X" + method
         segs = [bytes(PATH_CHARS.encode()[c % len(PATH_CHARS)] for c in r.blob(6)) for _ in range(1 + r.byte() % 3)]
         path = b"/" + b"/".join(segs)
